@@ -150,7 +150,32 @@ def _q_required(events):
     return [n for n in ["Stalled", "Finished", "Unresponsive", "AtCapacity", "result>=2"] if n not in seen]
 
 
+def _svc_common(formulas, **kw):
+    d = dict(component="svc", trace="Trace_Svc.tla", mon_cfg="Trace_Svc_mon.cfg", strict_cfg="Trace_Svc_strict.cfg",
+             drive={"quick": 0, "thorough": 0}, goals=[], goals_cfg=None,
+             interesting=lambda e: e["op"]["o"] not in ("reset", "add_enr"),
+             formulas=formulas,
+             assumptions=["the real Service runs with a scripted handler (hook Discv5::verif_start_scripted): the harness is the transport, the Handler is not part of these runs",
+                          "peers have fixed keys; node ids are hashes of keys, so log2 distances between peers are those of the fixed pool (mostly 252..256); lookup targets are free",
+                          "tokio clock paused; the ban list is process-global and reset at every behaviour start"])
+    d.update(kw)
+    return d
+
+
 PARTS = {
+    "svc_talk": _svc_common({"C20.TwoResponses": "C20", "C20.NotAnsweredOnce": "C20", "C20.SpuriousResponse": "C20", "C20.AfterShutdown": "C20"},
+        spec="MC_Talk.tla", mc={"quick": ["MC_Talk.cfg"], "thorough": ["MC_Talk.cfg"]},
+        goals_cfg="MC_Talk.cfg", goals=["GoalDropAfterShutdown", "GoalRespondAfterShutdown"],
+        sim={"quick": [dict(cfg="MC_Talk_sim.cfg", num=60, depth=14)], "thorough": [dict(cfg="MC_Talk_sim.cfg", num=1500, depth=20)]},
+        required=lambda events: [n for n in ["talk_respond", "talk_drop", "shutdown"] if not any(e["op"]["o"] == n for e in events)]),
+    "svc_serve": _svc_common({"C14.NoAnswer": "C14", "C14.WrongIdOrPeer": "C14", "C14.Total": "C14", "C14.TooBig": "C14", "C14.OwnRecord": "C14",
+                              "C14.ForeignRecord": "C14", "C14.Missing": "C14", "C14.TooManyOrDuplicate": "C14", "C14.Pong": "C14"},
+        spec="MC_Serve.tla", mc={"quick": ["MC_Serve.cfg"], "thorough": ["MC_Serve_9.cfg", "MC_Serve_17.cfg"]},
+        sim={"quick": [dict(cfg="MC_Serve_sim.cfg", num=40, depth=40)], "thorough": [dict(cfg="MC_Serve_sim.cfg", num=600, depth=60)]},
+        required=lambda events: [n for n in ["multi-packet", "own", "ping"] if n not in
+                                 {("multi-packet" if any(h["k"] == "Response" and h["body"].get("total", 1) > 1 for h in e["obs"]["hin"]) else "") for e in events}
+                                 | {("own" if any(h["k"] == "Response" and any(r.startswith("L:") for r in h["body"].get("recs", [])) for h in e["obs"]["hin"]) else "") for e in events}
+                                 | {("ping" if any(h["k"] == "Response" and h["body"]["t"] == "pong" for h in e["obs"]["hin"]) else "") for e in events}]),
     "query": dict(
         component="query", spec="MC_Query.tla",
         mc={"quick": ["MC_Query.cfg"], "thorough": ["MC_Query.cfg", "MC_Query_b.cfg"]},
@@ -247,6 +272,8 @@ PROPS = {
     "C10": dict(parts=[dict(name="query")]),
     "C13": dict(parts=[dict(name="handler")]),
     "C19": dict(parts=[dict(name="handler")]),
+    "C14": dict(parts=[dict(name="svc_serve")]),
+    "C20": dict(parts=[dict(name="svc_talk")]),
     "C15": dict(parts=[dict(name="lru"), dict(name="handler", mc={"quick": [], "thorough": ["MC_Handler_time.cfg"]})]),
     "C16": dict(parts=[dict(name="kb", mc={"quick": ["MC_KBuckets_c16.cfg", "MC_KBuckets_c16b.cfg"],
                                            "thorough": ["MC_KBuckets_c16.cfg", "MC_KBuckets_c16b.cfg", "MC_KBuckets_c16c.cfg"]})]),
